@@ -1,16 +1,17 @@
 /-
 C27 — `clvm_tree_to_lazy_node` preserves any CLVM object.
 
-Model: `ClvmModel/Py/Memo.lean` (the walk of `wheel/src/api.rs:193-298` over an abstract CPython
-heap: objects with addresses and lifetimes, an arbitrary object protocol, address reuse allowed).
+Model: `ClvmModel/Py/Memo.lean` (the walk of `wheel/src/api.rs` over an abstract CPython heap:
+objects with addresses and lifetimes, an arbitrary object protocol, address reuse allowed).
+Since /repo commit 6e19398 (repair of finding E) the code keeps every object it has looked at alive
+until the walk ends (`keep_alive`): the model of the code as it is is `treeToLazyNode P true`.
 
-The full statement `Statement` (for every object protocol the result is the source tree) is FALSE of
-the code as it is (finding E): the memo is keyed by object address, and the walk drops its
-references, so a child object created by `.pair` can die and a later object can get its address.
-Per CONTRIBUTING rule 5 the file carries: the full statement as a `def`, the partial theorem outside
-the defect region (`memo_ok_partial`: no address was shared by two different objects the walk looked
-at — true whenever every visited object stays alive), the witness (`memo_reuse_witness`), and the
-full theorem for the repaired algorithm that keeps visited objects alive (`memo_keepalive_ok`).
+* `Statement` / `memo_keepalive_ok`: for every honest Python side the result is the source tree.
+* `memo_ok_partial`: what holds for *both* variants — if no address was shared by two different
+  objects the walk looked at, the result is the source tree.
+* `memo_reuse_witness` / `without_keepalive_false`: why the keep-alive list is necessary — the
+  algorithm *without* it (`keepAlive = false`, the code before 6e19398) returns a wrong tree for a
+  LazyNode-like source whose children die and whose addresses are reused.
 -/
 import ClvmProofs.Lemmas.PyMemo
 
@@ -21,9 +22,15 @@ open Clvm Clvm.Py.Memo Clvm.Py.MemoLemmas
 def Consistent (log : List Handle) : Prop :=
   ∀ h1 ∈ log, ∀ h2 ∈ log, h1.addr = h2.addr → h1.tree = h2.tree
 
-/-- the property as stated: for every honest Python side, the original algorithm (`keepAlive = false`)
-returns the source tree -/
+/-- **The property**: for every honest Python side (`Valid`: `.pair` hands back live objects denoting
+the two children and never reuses the address of a live object), the code — the walk with the
+keep-alive list — returns a LazyNode for the source tree. -/
 def Statement : Prop :=
+  ∀ (P : Proto), Valid P → ∀ (heap : Heap), Functional heap → ∀ (root : Handle), (root.addr, root.tree) ∈ heap →
+    ∃ st, treeToLazyNode P true heap root = .ok (root.tree, st)
+
+/-- the same claim for the algorithm without the keep-alive list (the code before 6e19398) -/
+def StatementWithoutKeepAlive : Prop :=
   ∀ (P : Proto) (heap : Heap) (root : Handle), (root.addr, root.tree) ∈ heap →
     ∃ st, treeToLazyNode P false heap root = .ok (root.tree, st)
 
@@ -63,22 +70,22 @@ theorem memo_ok_partial (P : Proto) (k : Bool) (heap : Heap) (root : Handle) (t 
       (by intro i hi; simp only [List.mem_singleton] at hi; subst hi; exact ⟨root, hroot, rfl, rfl⟩)
     exact hf _ _ _ (hm _ _ (index_ok _ _ _ hi)) ⟨root, hroot, rfl, rfl⟩
 
-/-! ### the defect -/
+/-! ### why the keep-alive list is necessary -/
 
 def wAtom (n : Nat) : Tree := .atom [UInt8.ofNat n]
 /-- `((1 . 2) . (3 . 4))` -/
 def wSrc : Tree := .pair (.pair (wAtom 1) (wAtom 2)) (.pair (wAtom 3) (wAtom 4))
 
 /-- **Witness.**  A LazyNode-like source (children created by `.pair`, dying when dropped, lowest free
-address reused) for `((1 . 2) . (3 . 4))`: the walk returns a *different* tree, and the log shows two
-different objects at one address.  Hence the full statement is false of the code as it is. -/
+address reused) for `((1 . 2) . (3 . 4))`: the walk *without* the keep-alive list returns a different
+tree, and the log shows two different objects at one address (finding E, repaired by 6e19398). -/
 theorem memo_reuse_witness :
     ∃ t st, treeToLazyNode ephemeral false [(0, wSrc)] ⟨0, wSrc⟩ = .ok (t, st) ∧ t ≠ wSrc ∧ ¬ Consistent st.log := by
   refine ⟨_, _, rfl, ?_, ?_⟩
   · decide
   · unfold Consistent; decide
 
-theorem statement_false : ¬ Statement := by
+theorem without_keepalive_false : ¬ StatementWithoutKeepAlive := by
   intro h
   obtain ⟨st, hs⟩ := h ephemeral [(0, wSrc)] ⟨0, wSrc⟩ (by simp)
   obtain ⟨t, st', ht, hne, _⟩ := memo_reuse_witness
@@ -86,9 +93,9 @@ theorem statement_false : ¬ Statement := by
   simp only [Except.ok.injEq, Prod.mk.injEq] at ht
   exact hne ht.1.symm
 
-/-! ### the repaired algorithm -/
+/-! ### the code as it is (with the keep-alive list) -/
 
-/-- **Full theorem for the repair.**  With the keep-alive list (`keepAlive = true`) the walk returns
+/-- **Full theorem.**  With the keep-alive list (`keepAlive = true`, the code as it is) the walk returns
 the source tree for *every* honest Python side: stored children, children created on every call,
 any allocator that does not hand out the address of a live object. -/
 theorem memo_keepalive_ok (P : Proto) (hv : Valid P) (heap : Heap) (hfun : Functional heap) (root : Handle)
@@ -135,7 +142,10 @@ theorem fresh_valid (alloc : Heap → Nat) (ha : ∀ heap, alloc heap ∉ addrs 
   · cases e2; exact absurd (List.mem_map.2 ⟨_, e1, rfl⟩) hn
   · exact h1 a t1 t2 e1 e2
 
-/-- the repaired walk on the witness source returns the source tree -/
+theorem statement_holds : Statement :=
+  fun P hv heap hfun root hroot => memo_keepalive_ok P hv heap hfun root hroot
+
+/-- the walk with the keep-alive list on the witness source returns the source tree -/
 example : (treeToLazyNode ephemeral true [(0, wSrc)] ⟨0, wSrc⟩).map (·.1) = .ok wSrc := rfl
 
 end Clvm.Props.C27
